@@ -298,6 +298,7 @@ func c16Produce(r *core.Run, o *Out, builder, relay string, signed bool) (page, 
 				sp.IdentityProviderSSOURL = endpoint
 				defer func() { sp.IdentityProviderSSOURL = o.Cfg.IdPSSOURL }()
 			}
+			doc, _ = d.WriteToBytes() // the document as supplied
 			page, err = sp.BuildAuthBodyPostFromDocument(relay, d)
 		case "BuildLogoutBodyPostFromDocument":
 			kind, endpoint = "LogoutRequest", o.Cfg.IdPSLOURL
@@ -314,6 +315,7 @@ func c16Produce(r *core.Run, o *Out, builder, relay string, signed bool) (page, 
 				sp.IdentityProviderSLOURL = endpoint
 				defer func() { sp.IdentityProviderSLOURL = o.Cfg.IdPSLOURL }()
 			}
+			doc, _ = d.WriteToBytes() // the document as supplied
 			page, err = sp.BuildLogoutBodyPostFromDocument(relay, d)
 		default:
 			kind, endpoint, field = "LogoutResponse", o.Cfg.IdPSLOURL, "SAMLResponse"
@@ -330,12 +332,15 @@ func c16Produce(r *core.Run, o *Out, builder, relay string, signed bool) (page, 
 				sp.IdentityProviderSLOURL = endpoint
 				defer func() { sp.IdentityProviderSLOURL = o.Cfg.IdPSLOURL }()
 			}
+			doc, _ = d.WriteToBytes() // the document as supplied
 			page, err = sp.BuildLogoutResponseBodyPostFromDocument(relay, d)
 		}
 		if err != nil {
 			return err
 		}
-		doc, err = d.WriteToBytes()
+		if after, _ := d.WriteToBytes(); string(after) != string(doc) {
+			return fmt.Errorf("the builder modified the document it was given")
+		}
 		return err
 	})
 	if builder == "BuildAuthBodyPost" && out.OK() {
